@@ -116,7 +116,9 @@ func damageBase(en *Env, b int) int {
 	e.BDelete(3)
 	e.Commit()
 	if multiBlock {
-		e.Put(nkeys, val(h.BlockSize+500+r.Intn(300)))
+		// three blocks or more: a Middle chunk has the largest length the format can hold (32761), so that
+		// a flipped length bit produces the largest values a length field can take
+		e.Put(nkeys, val(2*h.BlockSize+700+r.Intn(300)))
 	}
 	e.Merge()
 	if e.Close() != "ok" || e.Open(cfg) != "ok" { // adopts: a hint file is now in the data directory
